@@ -37,7 +37,7 @@ fn props() -> Vec<Prop> {
         Prop { id: "C13", run: c13::run, replay: c13::replay, meta: c13::meta, workers: (4, 16), also_release: false, also_bg: false, scale: (10, 20), fuzz: None },
         Prop { id: "C14", run: c14::run, replay: c14::replay, meta: c14::meta, workers: (8, 16), also_release: false, also_bg: false, scale: (5, 2), fuzz: Some(("config_doc", 3000000)) },
         Prop { id: "C15", run: c15::run, replay: c15::replay, meta: c15::meta, workers: (8, 16), also_release: false, also_bg: false, scale: (5, 3), fuzz: None },
-        Prop { id: "C16", run: c16::run, replay: c16::replay, meta: c16::meta, workers: (9, 17), also_release: false, also_bg: false, scale: (3, 1), fuzz: None },
+        Prop { id: "C16", run: c16::run, replay: c16::replay, meta: c16::meta, workers: (10, 18), also_release: false, also_bg: false, scale: (3, 1), fuzz: None },
         Prop { id: "C17", run: c17::run, replay: c17::replay, meta: c17::meta, workers: (4, 16), also_release: false, also_bg: false, scale: (5, 10), fuzz: None },
         Prop { id: "C18", run: c18::run, replay: c18::replay, meta: c18::meta, workers: (8, 16), also_release: false, also_bg: false, scale: (1, 1), fuzz: None },
         Prop { id: "C19", run: c19::run, replay: c19::replay, meta: c19::meta, workers: (4, 16), also_release: false, also_bg: false, scale: (5, 5), fuzz: Some(("env_expand", 6000000)) },
@@ -143,6 +143,7 @@ fn child(name: &str, args: &[String]) -> i32 {
         "c18" => c18::child_main(args),
         "c15smoke" => child::child_main::<c15::Smoke>(args, c15::smoke_child),
         "c16" => child::child_main::<engine::ReplayFile>(args, c16::child_replay),
+        "c16real" => child::child_main::<c16::RealClockChild>(args, c16::real_clock_child),
         _ => {
             eprintln!("unknown child {}", name);
             2
